@@ -215,8 +215,11 @@ def run_readback(ctx):
     tg = TextGen(r, surrogates=False)
     base = URL("http://u:p@example.com:81/a/b?q=1#f")
     rel = URL("x/y")
+    from ..gen import BOUNDARY_CHARS
+
+    edge = [c for c in BOUNDARY_CHARS if not 0xD800 <= ord(c) <= 0xDFFF]
     for i in range(ctx.params["n"]):
-        t = tg.text(5, 1)[0]
+        t = tg.text(5, 1)[0] if i >= len(edge) * ctx.nshards or i % ctx.nshards != ctx.shard else "a" + edge[i // ctx.nshards] + "b"
         if not t or has_surrogate(t):
             continue
         cls = text_classes(t)
